@@ -62,9 +62,14 @@ def entries_for(kind, tier):
     return es
 
 
+PATCHES_THOROUGH = {'tri': ['Tring8', 'T3comp'], 'quad': ['Qmix', 'Qring8'], 'tet': ['K5'], 'hex': ['H4'], 'line': ['L2c']}
+
+
 def items(tier, seed):
     its = []
     for kind, names in PATCHES.items():
+        if tier == 'thorough':
+            names = names + PATCHES_THOROUGH.get(kind, [])
         for ent in entries_for(kind, tier):
             if ent.name in cat.AXIS_ALIGNED_ONLY:
                 its.append(('axis', ent.name))
